@@ -3,6 +3,7 @@
 package main
 
 import (
+	"context"
 	"fmt"
 	"strings"
 
@@ -25,6 +26,10 @@ type vProdScenario struct {
 	P, D       int     // per-scenario bounds (0 = the check's default)
 	Delay      bool    // delay bounding: every non-default thread choice counts against P (for 3-thread / long scenarios)
 	AutoCreate bool    // the topic does not exist yet: the first produce auto-creates it (store calls are scheduling points)
+	// CancelOnFail (C01 only): every produce request runs with its own cancellable context and an
+	// injected upload failure may be of the kind "the flushing request's context ended" (fake S3
+	// cancels that request's context, see fakes3.Client.CancelOnFail). Requires FailS3.
+	CancelOnFail bool
 }
 
 type vProdSent struct {
@@ -59,6 +64,7 @@ func vRunProduce(s *sched.Sched, sc vProdScenario, monitor bool) *vProdRun {
 	if sc.FailS3 {
 		r.S3.FailOn["UploadSegment"] = true
 		r.S3.FailOn["UploadIndex"] = true
+		r.S3.CancelOnFail = sc.CancelOnFail
 	}
 	topics := map[string]int{"t": 1}
 	if sc.AutoCreate {
@@ -90,7 +96,14 @@ func vRunProduce(s *sched.Sched, sc vProdScenario, monitor bool) *vProdRun {
 				if snt.Producer != pi {
 					continue
 				}
-				snt.Res, snt.Err = vProduceOne(r.H, "t", 0, -1, snt.Bytes)
+				if sc.CancelOnFail {
+					cctx, cancel := context.WithCancel(context.Background())
+					cc := &fakes3.Canceller{Ctx: cctx, Cancel: cancel}
+					snt.Res, snt.Err = vProduceOneCtx(context.WithValue(cctx, fakes3.CancelKey{}, cc), r.H, "t", 0, -1, snt.Bytes)
+					cancel()
+				} else {
+					snt.Res, snt.Err = vProduceOne(r.H, "t", 0, -1, snt.Bytes)
+				}
 				snt.Done = true
 			}
 		})
@@ -135,9 +148,22 @@ func (r *vProdRun) injectedFailures() []string {
 	for _, op := range r.Bucket.Ops() {
 		if op.Err == fakes3.ErrInjected.Error() {
 			out = append(out, op.Name+":"+op.Key)
+		} else if op.Err == fakes3.ErrInjectedCancel.Error() {
+			out = append(out, op.Name+"(ctx-cancelled):"+op.Key)
 		}
 	}
 	return out
+}
+
+// cancelledFailures counts the injected failures of the kind "request context ended".
+func (r *vProdRun) cancelledFailures() int {
+	n := 0
+	for _, op := range r.Bucket.Ops() {
+		if op.Err == fakes3.ErrInjectedCancel.Error() {
+			n++
+		}
+	}
+	return n
 }
 
 func (r *vProdRun) outcome() string {
@@ -146,5 +172,8 @@ func (r *vProdRun) outcome() string {
 		fmt.Fprintf(&b, "p%d.%d:c%d@%d;", snt.Producer, snt.Seq, snt.Res.Code, snt.Res.Base)
 	}
 	fmt.Fprintf(&b, "keys=%d;fail=%d", len(r.Bucket.Keys()), len(r.injectedFailures()))
+	if r.Sc.CancelOnFail {
+		fmt.Fprintf(&b, ";ctxcancel=%d", r.cancelledFailures())
+	}
 	return b.String()
 }
